@@ -95,16 +95,23 @@ PROPOSED_FINDINGS = [
      "witness": {"src": "match a & 3:\n case 0: r.prepare(7)\n case _ if a > 0: r.prepare(5)\n case _: r.prepare(2)", "history": [{"a": 1}], "signal": "r", "sim": 5, "verilog": 2},
      "what": "`case _ if guard:` is taken as the Verilog `default:` with the guard silently dropped (ReplaceMatch tests the wildcard before looking "
              "at c.guard), and a later `case _:` overwrites it: a=1 gives Python 5, Verilog 2"},
-    {"id": "C02-nonint-const-accepted", "property": "C02", "status": "known", "anchor": "py4hw/transpilation/python2verilog_transpilation.py:607",
+    {"id": "C02-nonint-const-accepted", "property": "C02", "status": "fixed", "fixed_by": "db0197f", "anchor": "py4hw/transpilation/python2verilog_transpilation.py:607",
      "class_expr": "r.get('kind')=='accepted-unsupported' and r.get('construct') in ('const-bytes','const-none','const-ellipsis','string-const')",
      "witness": {"src": "x = b\"a\"; self.r.prepare(self.a.get())"},
      "what": "constants that are neither int nor float are not refused in method bodies: `x = b\"a\"` is emitted as `x=b'a';` (not Verilog), "
              "`x = None` / `x = ...` / `x = \"abc\"` as `x=None;` / `x=Ellipsis;` / `x=abc;` (undeclared identifiers); candidate repair /tmp/C02_nonint_const.diff"},
-    {"id": "C02-bare-expr-accepted", "property": "C02", "status": "known", "anchor": "py4hw/transpilation/python2verilog_transpilation.py:545",
+    {"id": "C02-bare-expr-accepted", "property": "C02", "status": "fixed", "fixed_by": "5899f57", "anchor": "py4hw/transpilation/python2verilog_transpilation.py:545",
      "class_expr": "r.get('kind')=='accepted-unsupported' and r.get('construct')=='bare-expr-stmt'",
      "witness": {"src": "self.a.get() + 1\nself.r.prepare(self.a.get())"},
      "what": "a bare expression statement (`self.a.get() + 1` on its own line) is not refused: ReplaceExpr drops the ast.Expr wrapper and the "
              "expression text `a+1` is emitted in statement position (not Verilog); candidate repair /tmp/C02_bare_expr.diff"},
+    {"id": "C02-wire-value-target", "property": "C02", "status": "known", "anchor": "py4hw/transpilation/python2verilog_transpilation.py:585",
+     "class_expr": "r.get('construct')=='assign-to-wire-attr' and r.get('kind') in ('accepted-unsupported','mismatch','x-after-write','x-state','x-consequence')",
+     "witness": {"src": "self.r.value = self.a.get()", "history": [{"a": 5}], "signal": "r", "sim": 5, "verilog": "x"},
+     "what": "an attribute target deeper than self.<name> is not refused: ReplaceWiresAndVariables.visit_Attribute looks only at the LAST "
+             "component, so `self.r.value = e` (direct write to a wire, bypassing put/prepare) is emitted as an assignment to a fresh integer "
+             "`value` and the port is never driven (simulator r=5, Verilog x); likewise `self.sub.x`, `other.x` are taken for `x`; candidate "
+             "repair /tmp/C02_value_target.diff"},
     {"id": "C02-new-attr-uninit", "property": "C02", "status": "known", "anchor": "py4hw/transpilation/python2verilog_transpilation.py:596",
      "class_expr": "('new-attr' in r.get('reasons', []) or 'state-in-comb' in r.get('reasons', []) or 'port-as-value' in r.get('reasons', []) "
                    "or 'neg-const' in r.get('reasons', [])) and r.get('kind') in ('mismatch','x-after-write','x-state','x-consequence','unparseable','v-error')",
@@ -566,7 +573,9 @@ class Batch:
             for name in jb['vobs']:
                 if name in d.out_ports:
                     want = real[k]['ports'][name]
-                    seen_change = name in real[k]['written']      # has the Python method assigned this output yet
+                    # has the Python method assigned this output yet (through put/prepare, or - bypassing them - by a direct
+                    # write to the wire's .value, visible as a value other than the power-up 0)
+                    seen_change = name in real[k]['written'] or any(real[j]['ports'][name] != 0 for j in range(k + 1))
                 elif name in real[k]['state']:
                     want = real[k]['state'][name]
                     seen_change = True
@@ -657,6 +666,15 @@ class WTernaryInCall(py4hw.Logic):
     def clock(self):
         self.s = (self.s + (2 if self.a.get() > self.b.get() else (1 if self.a.get() == self.b.get() else 0))) & 255
         self.r.prepare((self.a.get() if self.s > 3 else self.b.get()) + 1)
+
+class WValueTarget(py4hw.Logic):
+    def __init__(self, parent, name, a, b, r):
+        super().__init__(parent, name)
+        self.a = self.addIn('a', a)
+        self.b = self.addIn('b', b)
+        self.r = self.addOut('r', r)
+    def clock(self):
+        self.r.value = self.a.get()
 
 class WFloatConst(py4hw.Logic):
     def __init__(self, parent, name, a, b, r):
@@ -778,6 +796,8 @@ WITNESSES = [  # (class, history, expected finding id)
     ('WTernaryInCall', [{'a': 5, 'b': 3}, {'a': 1, 'b': 0}, {'a': 200, 'b': 100}, {'a': 2, 'b': 9}], 'regression:agree'),
     # regression (fixed 61df158): a float constant in the method body must be refused
     ('WFloatConst', [{'a': 1, 'b': 0}], 'regression:refuse'),
+    # direct write to a wire's .value: accepted and emitted as a fresh variable `value` (finding C02-wire-value-target)
+    ('WValueTarget', [{'a': 5, 'b': 0}, {'a': 7, 'b': 0}], 'C02-wire-value-target'),
     # the constructor assigns a state attribute several times: the `initial` block must leave the LAST constant
     ('WMultiInit', [{'a': 1, 'b': 0}, {'a': 0, 'b': 0}, {'a': 1, 'b': 0}, {'a': 1, 'b': 0}], 'regression:agree'),
     ('WGuard', [{'a': 0, 'b': 0}, {'a': 0, 'b': 0}], 'C02-guarded-case'),
@@ -875,7 +895,8 @@ def run_all(res, tier, rng, tmpdir, quick):
     for cname, hist, fid in WITNESSES:
         try:
             d = Dut('witness/' + cname, getattr(wm, cname), [('a', 8, 'in'), ('b', 8, 'out' if cname == 'WPutInClock' else 'in'), ('r', 8, 'out')],
-                    src=cname, tags={'WGuardedWildcard': ['refuse:match-guarded-wildcard'], 'WFloatConst': ['refuse:float-const']}.get(cname, []),
+                    src=cname, tags={'WGuardedWildcard': ['refuse:match-guarded-wildcard'], 'WFloatConst': ['refuse:float-const'],
+                          'WValueTarget': ['refuse:assign-to-wire-attr']}.get(cname, []),
                     profile='witness')
         except Exception as e:
             res.broken.append(('correspondence', 'witness-build', f'{cname}: {type(e).__name__}: {e}'))
